@@ -8,7 +8,12 @@ from persim.landscapes.exact import PersLandscapeExact
 def handler(job):
     dgms = [np.array(d, dtype=float).reshape(-1, 2) for d in job["dgms"]]
     kind = job.get("dtype")
-    if kind and all(np.all(np.isfinite(d)) and np.all(d == np.round(d)) for d in dgms):
+    if kind in ("float32", "float16"):
+        # a narrow FLOAT container, when it holds the embedded coordinates exactly (the sweep's half sums need not be representable in it)
+        with np.errstate(all="ignore"):
+            if all(np.array_equal(d.astype(kind).astype(float), d) for d in dgms):
+                dgms = [d.astype(kind) for d in dgms]
+    elif kind and all(np.all(np.isfinite(d)) and np.all(d == np.round(d)) for d in dgms):
         info = np.iinfo(kind)
         if all(d.size == 0 or (d.min() >= info.min and d.max() <= info.max) for d in dgms):
             dgms = [d.astype(kind) for d in dgms]       # an integer-valued diagram in an integer dtype (unsigned and narrow ones included)
